@@ -84,7 +84,7 @@ def oracle(it):
 
 def build_items(cases, run=None):
     engine_build.build(False)
-    obs = child.map_children("c14", "observe", cases, timeout=15)
+    obs = child.map_children("c14", "observe", cases, timeout=15, confirm=True)
     items = []
     for c, o in zip(cases, obs):
         if "timeout" in o or "crash" in o:
